@@ -11,7 +11,6 @@
 package c19
 
 import (
-	"bytes"
 	"encoding/json"
 	"errors"
 	goflag "flag"
@@ -30,7 +29,6 @@ import (
 	ujson "github.com/elastic/go-ucfg/json"
 	"github.com/elastic/go-ucfg/parse"
 	uyaml "github.com/elastic/go-ucfg/yaml"
-	"pgregory.net/rapid"
 
 	"verif/harness/internal/canon"
 	"verif/harness/internal/gen"
@@ -82,17 +80,6 @@ func (o Opts) classes(r *runlog.R) {
 	r.ClassIf(o.Resolver, "opt:resolver")
 }
 
-func genOpts(t *rapid.T) Opts {
-	o := Opts{
-		PathSep: rapid.IntRange(0, 3).Draw(t, "pathsep") != 0,
-		VarExp:  rapid.IntRange(0, 2).Draw(t, "varexp") == 0,
-	}
-	o.Resolver = o.VarExp && rapid.Bool().Draw(t, "resolver")
-	// the default policy is one of five; the others are where the options matter
-	o.Policy = model.Policy(rapid.IntRange(0, int(model.NPolicies)-1).Draw(t, "policy"))
-	return o
-}
-
 // behaviour renders what an option list does to a fixed probe (build, merge,
 // unpack). Two option lists with the same rendering are indistinguishable for
 // PathSep, VarExp, the resolver table and the five merge policies.
@@ -130,17 +117,6 @@ func sameOptions(what string, got, want []ucfg.Option) error {
 
 // ---------------------------------------------------------------------------
 // helpers shared by the sub-checks
-
-var initKeys = []string{"a", "b", "c", "d", "a", "b"}
-
-// genInit draws the initial configuration (nil: none). Strings are plain, so
-// that the initial config can always be built and unpacked under VarExp.
-func genInit(t *rapid.T) *gen.Tree {
-	if rapid.IntRange(0, 2).Draw(t, "init") == 0 {
-		return nil
-	}
-	return gen.GenObj(t, &gen.TreeCfg{Depth: 2, Width: 3, Keys: initKeys}, 2)
-}
 
 func newInit(tr *gen.Tree, opts []ucfg.Option) (*ucfg.Config, error) {
 	if tr == nil {
@@ -278,8 +254,20 @@ func checkString(fv *flag.FlagValue, want view, r *runlog.R) error {
 	if err != nil {
 		return fmt.Errorf("String() is not the JSON of the data: %q (%v); data: %s", s, err, want)
 	}
-	if !canon.EqualSplit(got, want.data) {
-		return fmt.Errorf("String() differs from the data:\n got  %s\n want %s", s, want)
+	// "the JSON of the same data": the data written by encoding/json and read
+	// back the same way (a float64 like 2^63 is printed in its shortest form,
+	// which is not the exact integer)
+	wj, err := json.Marshal(want.data)
+	if err != nil {
+		r.Class("string:skipped (data has no JSON form)")
+		return nil
+	}
+	wantData, err := decodeJSON(string(wj))
+	if err != nil {
+		return fmt.Errorf("harness: %v", err)
+	}
+	if !canon.EqualSplit(got, wantData) {
+		return fmt.Errorf("String() differs from the data:\n got  %s\n want %s (%s)", s, wj, want)
 	}
 	r.Class("string:checked")
 	return nil
@@ -459,13 +447,20 @@ func runKV(c KVCase, r *runlog.R) error {
 		return fmt.Errorf("Error() = %v before any argument", err)
 	}
 
-	failedAt := -1  // index of the first failing argument
-	firstMsg := ""  // what Error() said right after it
-	known := true   // the config is determined by the statement so far
+	failedAt := -1 // index of the first failing argument
+	firstMsg := "" // what Error() said right after it
+	known := true  // the config is determined by the statement so far
 	var paths [][]string
 	var classes []string
 
 	for i, arg := range c.Args {
+		// the definition first: if the public pieces themselves panic on this
+		// argument there is nothing to compare with (that is C07's subject)
+		var st step
+		if err := uc.Safe("oracle", func() error { st = settingOf(arg, c.AutoBool, opts); return nil }); err != nil {
+			r.Discard()
+			return nil
+		}
 		if failedAt >= 0 {
 			// anything may follow; the first error stays
 			var setErr error
@@ -484,13 +479,6 @@ func runKV(c KVCase, r *runlog.R) error {
 			continue
 		}
 
-		// the definition first: if the public pieces themselves panic on this
-		// argument there is nothing to compare with (that is C07's subject)
-		var st step
-		if err := uc.Safe("oracle", func() error { st = settingOf(arg, c.AutoBool, opts); return nil }); err != nil {
-			r.Discard()
-			return nil
-		}
 		var mergeErr error
 		if st.kind == stSetting {
 			if err := uc.Safe("oracle merge", func() error { mergeErr = acc.Merge(st.cfg, opts...); return nil }); err != nil {
@@ -868,32 +856,6 @@ func runCollector(c ColCase, r *runlog.R) error {
 	return nil
 }
 
-func genCollector(t *rapid.T) ColCase {
-	c := ColCase{Opts: genOpts(t), Init: genInit(t)}
-	cfg := &gen.TreeCfg{Depth: 2, Width: 3, Keys: initKeys}
-	n := rapid.IntRange(1, 6).Draw(t, "steps")
-	for i := 0; i < n; i++ {
-		var s ColStep
-		k := rapid.IntRange(0, 9).Draw(t, "kind")
-		if k != 0 { // mostly a config
-			if rapid.IntRange(0, 7).Draw(t, "toplist") == 0 {
-				s.Cfg = gen.GenList(t, cfg, 2)
-			} else {
-				s.Cfg = gen.GenObj(t, cfg, 2)
-			}
-		}
-		if k <= 1 || k == 9 { // 0: error only, 1/9: config and error
-			if k == 9 && rapid.Bool().Draw(t, "noerr") {
-				// keep the config only
-			} else {
-				s.Err = fmt.Sprintf("E%d-%s", i, rapid.SampledFrom([]string{"x", "y", "load failed"}).Draw(t, "msg"))
-			}
-		}
-		c.Steps = append(c.Steps, s)
-	}
-	return c
-}
-
 var subCol = runlog.Register(&runlog.Sub[ColCase]{
 	Name: "collector",
 	Rule: "cfgutil.NewCollector(initial or nil, opts...) followed by 1-6 Add(cfg, err) calls: cfg a random tree over keys {a,b,c,d} (or nil), err nil or a distinct error, both, or neither. Oracle: Config() is the construction config (or a fresh one) and keeps its identity; before the first error the data equals merging the configs in order with the construction options; Add returns the step's error, Error()/Get() keep the first error; GetOptions() has the length and the behaviour (fixed build/merge/unpack probe) of the construction options. Non-trivial: >=2 configs (counting the initial one) meet under a non-default policy, or an error is followed by further calls. Distinct: hash of the case.",
@@ -1117,6 +1079,9 @@ func runFiles(c FilesCase, r *runlog.R) error {
 		if err := checkString(fv, wantV, r); err != nil {
 			return fmt.Errorf("after file %d %q: %v", i, f.Name, err)
 		}
+		if err := fv.Error(); err != nil {
+			return fmt.Errorf("after file %d %q and String(): Error() = %v although no file failed", i, f.Name, err)
+		}
 	}
 	c.Opts.classes(r)
 	for _, l := range classes {
@@ -1130,68 +1095,6 @@ func runFiles(c FilesCase, r *runlog.R) error {
 	r.ClassIf(multi, "nt:two configs meet under a non-default policy")
 	r.NonTrivialIf(followed || multi)
 	return nil
-}
-
-var extTables = [][]ExtEntry{
-	{{".json", "json"}, {".yaml", "yaml"}, {".yml", "yaml"}}, // flag.ConfigFilesExts
-	{{"", "yaml"}},                    // flag.ConfigYAMLFiles
-	{{"", "json"}},                    // flag.ConfigJSONFiles
-	{{".json", "json"}, {"", "yaml"}}, // extension plus fallback
-	{{".yaml", "yaml"}},
-	{},
-	{{".json", "yaml"}, {".yaml", "json"}, {".conf", "json"}}, // custom assignment
-}
-
-var fileBases = []string{"f", "g", "a.b", "x.tar", "conf.json.d"}
-var fileExts = []string{".json", ".json", ".yaml", ".yml", ".txt", "", ".JSON", ".conf", ".jsonx"}
-
-func jsonText(tr *gen.Tree) string {
-	b, err := json.Marshal(tr.Go())
-	if err != nil {
-		return "{}"
-	}
-	return string(b)
-}
-
-// yamlText renders an object as a block mapping whose values are in flow
-// (JSON) style; other trees are rendered as JSON, which is YAML as well.
-func yamlText(tr *gen.Tree) string {
-	if tr.K != "obj" || len(tr.Keys) == 0 {
-		return jsonText(tr)
-	}
-	var b bytes.Buffer
-	for i, k := range tr.Keys {
-		kb, _ := json.Marshal(k)
-		fmt.Fprintf(&b, "%s: %s\n", kb, jsonText(tr.Vals[i]))
-	}
-	return b.String()
-}
-
-func genFiles(t *rapid.T) FilesCase {
-	c := FilesCase{Opts: genOpts(t), Init: genInit(t)}
-	c.Exts = append([]ExtEntry{}, rapid.SampledFrom(extTables).Draw(t, "table")...)
-	cfg := &gen.TreeCfg{Depth: 2, Width: 3, Keys: initKeys, NoFloat: true}
-	n := rapid.IntRange(1, 5).Draw(t, "files")
-	for i := 0; i < n; i++ {
-		f := FileArg{Name: fmt.Sprintf("%d-%s%s", i, rapid.SampledFrom(fileBases).Draw(t, "base"), rapid.SampledFrom(fileExts).Draw(t, "ext"))}
-		switch k := rapid.IntRange(0, 11).Draw(t, "content"); {
-		case k == 0:
-			f.Missing = true
-		case k == 1:
-			f.Content = rapid.SampledFrom([]string{"", "{", "[1,", "a: [", "42", "{\"a\": }", "a: 1\n b: 2\n", "\t"}).Draw(t, "bad")
-		case k == 2:
-			s := jsonText(gen.GenObj(t, cfg, 2))
-			f.Content = s[:rapid.IntRange(0, len(s)).Draw(t, "cut")]
-		case k <= 4:
-			f.Content = yamlText(gen.GenObj(t, cfg, 2))
-		case k == 5:
-			f.Content = jsonText(gen.GenList(t, cfg, 2))
-		default:
-			f.Content = jsonText(gen.GenObj(t, cfg, 2))
-		}
-		c.Files = append(c.Files, f)
-	}
-	return c
 }
 
 var subFiles = runlog.Register(&runlog.Sub[FilesCase]{
